@@ -52,3 +52,21 @@ static parsec_key_t ref_make_key(const REF_TP_T *tp, int c, const parsec_assignm
     if (c == 0) return __jdf2c_make_key_PING((const parsec_taskpool_t *)tp, l);
     (void)c; return __jdf2c_make_key_PONG((const parsec_taskpool_t *)tp, l);
 }
+
+/* IN side, data flows only */
+static int ref_pred(const int *g, int c, const int *p, int f, int *pc, int *pp, int *pf)
+{
+    (void)g; (void)f;
+    if (c == REF_CLS_PING && p[0] > 0) { *pc = REF_CLS_PONG; pp[0] = p[0] - 1; *pf = 0; return 1; }
+    if (c == REF_CLS_PONG) { *pc = REF_CLS_PING; pp[0] = p[0]; *pf = 0; return 1; }
+    return 0;
+}
+static int ref_is_ctl(int c, int f) { (void)c; (void)f; return 0; }
+
+/* key of instance (c, p) through the real generated make_key */
+static parsec_key_t ref_key_of(const REF_TP_T *tp, const int *g, int c, const int *p)
+{
+    if (c == 0) { __parsec_pingpong_PING_parsec_assignment_t a = { 0 }; ref_PING_fill(&a, g, p); return __jdf2c_make_key_PING((const parsec_taskpool_t *)tp, (const parsec_assignment_t *)&a); }
+    if (c == 1) { __parsec_pingpong_PONG_parsec_assignment_t a = { 0 }; ref_PONG_fill(&a, g, p); return __jdf2c_make_key_PONG((const parsec_taskpool_t *)tp, (const parsec_assignment_t *)&a); }
+    return 0;
+}
